@@ -290,6 +290,29 @@ PROPS = {
         "assumptions": ["the round-trip theorem for every payload (c13_roundtrip) is work in progress: until then round-trip is "
                         "covered by correspondence + spec lines, the CRC/table/bounds/gate statements by theorems"],
     },
+    "C17": {
+        "required_theorems": ["c17_create", "c17_overwrite", "c17_append", "c17_bad_targets", "c17_durable_stream_sink",
+                              "c17_durable_packet_sink"],
+        "runs": [
+            {"sub": "fsink", "quick": ["--seed", "{seed}", "--kills", 40],
+             "thorough": ["--seed", "{seed}", "--kills", 1500], "timeout": 20000},
+        ],
+        "rule": "both sinks x modes {create, overwrite, append} x initial state {absent, empty file, non-empty file, directory, "
+                "unwritable (a 0444 sysctl file: the sandbox runs as root)} x 3 data variants on a temp dir, result (error or "
+                "final file bytes) compared with the Lean model evaluated on the GENERATED open flags; plus a child process "
+                "streaming counters through each sink, SIGKILLed after a random number of acknowledgements plus a random delay: "
+                "the file must be a prefix of the serialised stream and hold at least everything acknowledged. "
+                "distinct = distinct request.",
+        "trusted_base": GLOBAL_TB + [
+            "tools/extract.py reads the OpenOptions chain of each `match mode` arm and the textual order of write_all/flush/"
+            "consume (pop) in each work() from src/file_sink.rs; lean/RR/Gen/FileSink.lean is regenerated on every run",
+            "modelled, not verified: std::fs::OpenOptions / open(2) semantics as in RR.FileSink.openSem; BufWriter may pass any "
+            "prefix of its buffer to the file on write and everything on flush",
+            "PARTIAL: a completed write(2) survives the death of the process (kernel page cache); power loss not covered; "
+            "sampling of kill points is support only",
+        ],
+        "assumptions": [],
+    },
 }
 
 MANIFEST_TEXT = {
@@ -455,6 +478,17 @@ MANIFEST_TEXT = {
         "note": "Five deframer defects were repaired by fix: commits (len<2 panic, max_size equality, shared-zero flags, flag in "
                 "progress lost at the too-long reset). Error-detection theorems (odd weight, 2-bit) are not yet proved.",
         "technique": "Lean 4 proof over a model with translator-generated CRC table + differential correspondence with an independent encoder",
+    },
+    "C17": {
+        "text": "Lean 4 theorems about definitions GENERATED from src/file_sink.rs on every run (open flags of each mode of both "
+                "sinks; order of write/flush/consume in each work()): create succeeds iff the path is absent; overwrite leaves "
+                "exactly the new data; append keeps and extends and creates if absent; directories/unwritable files are errors; "
+                "and, for every sequence of work() calls with any window sizes and any write-through behaviour of the buffered "
+                "writer, at every kill point the file is a prefix of the serialised stream holding at least everything consumed "
+                "(packet sink: at every work() return). A reordering (consume before flush) or a changed flag re-opens the proof.",
+        "design_ref": "DESIGN.md section 2, C17",
+        "note": "PARTIAL: kernel page-cache semantics assumed. The Append-does-not-create defect was repaired by a fix: commit.",
+        "technique": "Lean 4 proof over translator-generated open flags and event order + mode/initial-state correspondence + SIGKILL sampling",
     },
 }
 
